@@ -9,6 +9,7 @@ import (
 	"github.com/basecomplextech/baselibrary/pools"
 	"github.com/basecomplextech/baselibrary/status"
 	"github.com/basecomplextech/spec"
+	"github.com/basecomplextech/spec/internal/verifpoint"
 	"github.com/basecomplextech/spec/proto/prpc"
 )
 
@@ -120,10 +121,13 @@ type requestState struct {
 }
 
 func acquireRequestState() *requestState {
-	return requestStatePool.New()
+	s := requestStatePool.New()
+	verifpoint.Point("pool.rpcreqstate.get", verifpoint.Ptr(s), verifpoint.B(s.done), 0)
+	return s
 }
 
 func releaseRequestState(s *requestState) {
+	verifpoint.Point("pool.rpcreqstate.put", verifpoint.Ptr(s), 0, 0)
 	s.reset()
 	requestStatePool.Put(s)
 }
